@@ -1,0 +1,31 @@
+//go:build verif
+
+package multicodec
+
+// Contracts for govc (see /verif/DESIGN.md §5 C05, C20). Comment-only;
+// compiled only under the build tag "verif". A registry is specified directly
+// against the two Go maps it holds.
+
+//@ func (*Registry).RegisterEncoder(indicator, encodeFunc)
+//@   requires r != nil && encodeFunc != nil && (r.encoders == nil) == (r.decoders == nil)
+//@   assigns r.encoders, r.decoders, map(r.encoders)
+//@   ensures[C05] indom(r.encoders, indicator) && r.encoders[indicator] == encodeFunc && r.encoders != nil && r.decoders != nil
+//@   ensures[C05] forall k uint64 :: k != indicator ==> indom(r.encoders, k) == old(indom(r.encoders, k)) && (indom(r.encoders, k) ==> r.encoders[k] == old(r.encoders[k]))
+
+//@ func (*Registry).RegisterDecoder(indicator, decodeFunc)
+//@   requires r != nil && decodeFunc != nil && (r.encoders == nil) == (r.decoders == nil)
+//@   assigns r.encoders, r.decoders, map(r.decoders)
+//@   ensures[C05] indom(r.decoders, indicator) && r.decoders[indicator] == decodeFunc && r.encoders != nil && r.decoders != nil
+//@   ensures[C05] forall k uint64 :: k != indicator ==> indom(r.decoders, k) == old(indom(r.decoders, k)) && (indom(r.decoders, k) ==> r.decoders[k] == old(r.decoders[k]))
+
+//@ func (*Registry).LookupEncoder(indicator) (f, err)
+//@   requires r != nil
+//@   assigns nothing
+//@   ensures[C05,C20] indom(r.encoders, indicator) ==> err == nil && f == r.encoders[indicator]
+//@   ensures[C05] !indom(r.encoders, indicator) ==> err != nil && f == nil
+
+//@ func (*Registry).LookupDecoder(indicator) (f, err)
+//@   requires r != nil
+//@   assigns nothing
+//@   ensures[C05,C20] indom(r.decoders, indicator) ==> err == nil && f == r.decoders[indicator]
+//@   ensures[C05] !indom(r.decoders, indicator) ==> err != nil && f == nil
